@@ -1,6 +1,8 @@
 package c17
 
 import (
+	"bytes"
+	"encoding/binary"
 	"fmt"
 	"hash/fnv"
 	"math"
@@ -52,37 +54,58 @@ type Op struct {
 	Weight  float32  `json:"weight,omitempty"`
 	Stretch float32  `json:"stretch,omitempty"`
 	Fonts   []int    `json:"fonts,omitempty"` // pool indexes (fixed font list of "split")
+	Dmg     []Damage `json:"dmg,omitempty"`   // damaged variants of the font file ("parsedamaged")
 	Flags   int      `json:"flags,omitempty"` // harfbuzz.ShappingOptions of "hbshape"
 	Level   int      `json:"level,omitempty"` // harfbuzz.ClusterLevel of "hbshape"
 }
 
-// Program is one generated case: the pool of shared fonts, GOMAXPROCS, and one operation list per
-// goroutine.
+// Edit overwrites one byte of a font file.
+type Edit struct {
+	Off int `json:"off"` // relative to the start of the table (of the file when Table is "")
+	Val int `json:"val"`
+}
+
+// Damage describes one deterministic damaged variant of a pool font file: the table directory
+// entry of Table gets the length Trunc (when Trunc > 0: the table is cut short), the bytes of Edits
+// are overwritten inside the table body, and the file is cut to FileLen bytes (when FileLen > 0).
+type Damage struct {
+	Table   string `json:"table,omitempty"`
+	Trunc   int    `json:"trunc,omitempty"`
+	Edits   []Edit `json:"edits,omitempty"`
+	FileLen int    `json:"filelen,omitempty"`
+}
+
+// Program is one generated case: the pool of shared fonts, GOMAXPROCS, operations run by the test
+// goroutine before the others start (loading fonts, also damaged ones: what an application does
+// when it scans a font directory), and one operation list per goroutine.
 type Program struct {
 	Procs      int         `json:"procs"`
 	Pool       []PoolEntry `json:"pool"`
+	Prologue   []Op        `json:"prologue,omitempty"`
 	Goroutines [][]Op      `json:"goroutines"`
 }
 
 // Operation kinds.
 const (
-	kNewFace   = "newface"   // font.NewFace on the shared font
-	kSetVar    = "setvar"    // Face.SetVariations on the goroutine's own face
-	kNominal   = "nominal"   // NominalGlyph / VariationGlyph
-	kAdvance   = "advance"   // HorizontalAdvance, VerticalAdvance, glyph origins
-	kExtents   = "extents"   // Face.GlyphExtents (decodes the outline; cached on the own face)
-	kOutline   = "outline"   // Face.GlyphData
-	kName      = "name"      // GlyphName
-	kMeta      = "meta"      // Describe, IsMonospace, Upem, BitmapSizes, cmap iteration, NormalizeVariations
-	kFontExt   = "fontext"   // FontHExtents, FontVExtents, LineMetric
-	kHbShape   = "hbshape"   // own harfbuzz.Font (NewFont on first use) + own Buffer.Shape
-	kHbFont    = "hbfont"    // harfbuzz.NewFont + font queries
-	kShape     = "shape"     // own shaping.HarfbuzzShaper.Shape
-	kSplit     = "split"     // own shaping.Segmenter.Split (+ shape every run when B=1)
-	kFmAdd     = "fmadd"     // own fontscan.FontMap.AddFace (own face wrapping the shared font)
-	kFmQuery   = "fmquery"   // FontMap.SetQuery / SetScript
-	kFmResolve = "fmresolve" // FontMap.ResolveFace / FontLocation / FontMetadata
-	kFmSystem  = "fmsystem"  // FontMap.UseSystemFonts ("multiple font maps may call this method concurrently")
+	kNewFace   = "newface"      // font.NewFace on the shared font
+	kSetVar    = "setvar"       // Face.SetVariations on the goroutine's own face
+	kNominal   = "nominal"      // NominalGlyph / VariationGlyph
+	kAdvance   = "advance"      // HorizontalAdvance, VerticalAdvance, glyph origins
+	kExtents   = "extents"      // Face.GlyphExtents (decodes the outline; cached on the own face)
+	kOutline   = "outline"      // Face.GlyphData
+	kName      = "name"         // GlyphName
+	kMeta      = "meta"         // Describe, IsMonospace, Upem, BitmapSizes, cmap iteration, NormalizeVariations
+	kFontExt   = "fontext"      // FontHExtents, FontVExtents, LineMetric
+	kHbShape   = "hbshape"      // own harfbuzz.Font (NewFont on first use) + own Buffer.Shape
+	kHbFont    = "hbfont"       // harfbuzz.NewFont + font queries
+	kShape     = "shape"        // own shaping.HarfbuzzShaper.Shape
+	kSplit     = "split"        // own shaping.Segmenter.Split (+ shape every run when B=1)
+	kFmAdd     = "fmadd"        // own fontscan.FontMap.AddFace (own face wrapping the shared font)
+	kFmQuery   = "fmquery"      // FontMap.SetQuery / SetScript
+	kFmResolve = "fmresolve"    // FontMap.ResolveFace / FontLocation / FontMetadata
+	kFmSystem  = "fmsystem"     // FontMap.UseSystemFonts ("multiple font maps may call this method concurrently")
+	kParse     = "parse"        // font.ParseTTC of the pool font's file, inside the goroutine
+	kParseDmg  = "parsedamaged" // font.ParseTTC of damaged variants of the pool font's file (error paths)
 )
 
 // heavy reports whether an operation of this kind decodes outlines or shapes (non-triviality rule).
@@ -125,7 +148,8 @@ func (silentLogger) Printf(string, ...interface{}) {}
 type gstate struct {
 	pool    []*font.Font // shared (*font.Font is documented as safe for concurrent use)
 	entries []PoolEntry
-	naxes   []int // number of variation axes of each pool font (read-only)
+	data    [][]byte // the font files (read-only)
+	naxes   []int    // number of variation axes of each pool font (read-only)
 
 	faces   []*font.Face     // own faces, one slot per pool font
 	used    []bool           // the own face has been handed to an hb font / shaper / font map
@@ -137,8 +161,8 @@ type gstate struct {
 	fmFaces int
 }
 
-func newState(pool []*font.Font, entries []PoolEntry, naxes []int) *gstate {
-	st := &gstate{pool: pool, entries: entries, naxes: naxes}
+func newState(pool []*font.Font, entries []PoolEntry, naxes []int, data [][]byte) *gstate {
+	st := &gstate{pool: pool, entries: entries, naxes: naxes, data: data}
 	st.reset()
 	return st
 }
@@ -282,6 +306,74 @@ func (o *out) glyphData(gd font.GlyphData) {
 	default:
 		o.s(fmt.Sprintf("%T", gd))
 	}
+}
+
+// loaded writes the signature of a load: the error, or a few facts about every face (the glyphs
+// of gids are decoded through the new face, which nobody else knows).
+func (o *out) loaded(faces []*font.Face, err error, gids []uint32) {
+	if err != nil {
+		o.s("error")
+		o.s(strconv.Quote(err.Error()))
+		return
+	}
+	o.s("ok")
+	o.i(int64(len(faces)))
+	for _, face := range faces {
+		d := face.Describe()
+		o.s(strconv.Quote(d.Family))
+		o.u(uint64(face.Upem()))
+		o.i(int64(len(face.GSUB.Lookups)))
+		o.i(int64(len(face.GPOS.Lookups)))
+		o.i(int64(len(face.Morx)))
+		o.t(face.HasVerticalMetrics())
+		g, ok := face.NominalGlyph('a')
+		o.u(uint64(g))
+		o.t(ok)
+		for _, g := range gids {
+			o.f(face.HorizontalAdvance(font.GID(g)))
+			e, ok := face.GlyphExtents(font.GID(g))
+			o.t(ok)
+			o.f(e.XBearing)
+			o.f(e.YBearing)
+			o.f(e.Width)
+			o.f(e.Height)
+			o.glyphData(face.GlyphData(font.GID(g)))
+		}
+	}
+}
+
+// applyDamage returns the damaged variant of a font file (always a copy).
+func applyDamage(data []byte, d Damage) []byte {
+	c := append([]byte(nil), data...)
+	base, limit := 0, len(c)
+	if d.Table != "" {
+		base, limit = -1, 0
+		if sfntDirectory(c) != nil {
+			n := int(binary.BigEndian.Uint16(c[4:]))
+			for i := 0; i < n; i++ {
+				rec := c[12+16*i:]
+				if string(rec[:4]) != d.Table {
+					continue
+				}
+				base, limit = int(binary.BigEndian.Uint32(rec[8:])), int(binary.BigEndian.Uint32(rec[12:]))
+				if d.Trunc > 0 && d.Trunc < limit {
+					binary.BigEndian.PutUint32(rec[12:], uint32(d.Trunc))
+				}
+				break
+			}
+		}
+	}
+	if base >= 0 {
+		for _, e := range d.Edits {
+			if e.Off >= 0 && e.Off < limit && base+e.Off < len(c) {
+				c[base+e.Off] = byte(e.Val)
+			}
+		}
+	}
+	if d.FileLen > 0 && d.FileLen < len(c) {
+		c = c[:d.FileLen]
+	}
+	return c
 }
 
 func (o *out) shapingOutput(st *gstate, res shaping.Output) {
@@ -462,6 +554,21 @@ func (st *gstate) exec(op Op) (res []byte, panicMsg string) {
 		face := st.face(f)
 		for _, g := range op.G {
 			o.glyphData(face.GlyphData(font.GID(g)))
+		}
+		if len(op.G) > 0 { // and the A glyphs that follow the first one (a run of text being rendered)
+			for i := 1; i <= op.A; i++ {
+				o.glyphData(face.GlyphData(font.GID(op.G[0]) + font.GID(i)))
+			}
+		}
+
+	case kParse:
+		faces, err := font.ParseTTC(bytes.NewReader(st.data[f]))
+		o.loaded(faces, err, op.G)
+
+	case kParseDmg:
+		for _, d := range op.Dmg {
+			faces, err := font.ParseTTC(bytes.NewReader(applyDamage(st.data[f], d)))
+			o.loaded(faces, err, op.G)
 		}
 
 	case kName:
